@@ -308,8 +308,9 @@ def read_replay(path):
     return hdr, lines
 
 
-def ddmin(lines, fails, budget=200, keep_prefix=0):
-    """Greedy delta debugging on an op list: `fails(lines)` -> bool. Keeps the first keep_prefix lines."""
+def ddmin(lines, fails, budget=200, keep_prefix=0, shrink_line=None):
+    """Greedy delta debugging on an op list: `fails(lines)` -> bool. Keeps the first keep_prefix lines.
+    `shrink_line(line) -> [smaller candidate lines]` (optional) is tried on every remaining line afterwards."""
     cur = list(lines)
     n = 2
     calls = 0
@@ -331,6 +332,20 @@ def ddmin(lines, fails, budget=200, keep_prefix=0):
             if chunk == 1:
                 break
             n = min(len(body), n * 2)
+    if shrink_line is not None:
+        progress = True
+        while progress and calls < budget:
+            progress = False
+            for i in range(keep_prefix, len(cur)):
+                for cand_line in shrink_line(cur[i]):
+                    calls += 1
+                    if calls > budget:
+                        break
+                    cand = cur[:i] + [cand_line] + cur[i + 1:]
+                    if fails(cand):
+                        cur = cand
+                        progress = True
+                        break
     return cur
 
 
